@@ -57,6 +57,27 @@ fn main() {
                 2
             }
         },
+        "show" => {
+            // run one case (a replay file or a bare case) and print verdict + trace sample
+            runner::install_panic_hook();
+            let path = args.get(2).cloned().unwrap_or_default();
+            let txt = std::fs::read_to_string(&path).expect("read");
+            let case: ops::Case = match serde_json::from_str::<ops::ReplayFile>(&txt) {
+                Ok(rf) => rf.case,
+                Err(_) => serde_json::from_str(&txt).expect("case json"),
+            };
+            let p = props::by_id(&case.prop).expect("prop");
+            let o = runner::checked(p.as_ref(), &case, true);
+            println!("cfg:\n{}", case.cfg);
+            println!("ops: {}", ops::ops_short(&case.ops));
+            println!("verdict: {:?}", o.verdict);
+            if let Some(s) = o.sample {
+                println!("out: {}", s["out"]);
+                println!("info: {}", s["info"]);
+            }
+            println!("counters: {:?}", o.counters);
+            0
+        }
         "rejects" => {
             // histogram of parser rejection messages for generated cases (generator tuning aid)
             let prop = args.get(2).cloned().unwrap_or_default();
